@@ -39,6 +39,8 @@ def plan(tier, seed):
     specs += [{'kind': 'inject', 'part': p, 'rounds': 2 if tier == 'quick' else 20} for p in range(3)]
     specs += [{'kind': 'baton', 'part': p, 'parts': 6, 'pairs': 3 if tier == 'quick' else 20,
                'cap': 160 if tier == 'quick' else 600} for p in range(6)]
+    specs += [{'kind': 'byfunc', 'part': p, 'parts': 8, 'pairs_per_function': 1 if tier == 'quick' else 3, 'kinds_per_function': 5 if tier == 'quick' else 12,
+               'max_plans': 16 if tier == 'quick' else 40} for p in range(8)]
     # cold-start: switch at the first hit of the d-th distinct anchor location of the first user of each version
     # (about 125 distinct locations on this tree); thorough adds switches at later occurrences (j-th anchor event)
     D = measure_distinct_anchor_locations() + 6
@@ -98,8 +100,8 @@ def corpus():
             # a message declaring its own escape character (a different one per version and level) whose text holds the
             # escape characters of the other sets as plain data
             esc = '$@*%!'[(i + level) % 5]
-            msg2 = 'MSH|^~%s&|A|B|C|D|20200101||%s|%d|P|%s\rEVN||20200101\rPID|1||%d||A\\B^C%sF%sD%sE%s!@*%%\rZZ1|x\\y%sT%s' % (
-                esc, m9, i, v, i, esc, esc, esc, esc, esc, esc)
+            msg2 = 'MSH|^~%s&|A|B|C|D|20200101||%s|%d|P|%s\rEVN||20200101\rPID|1||%d||A\\B^C%sF%sD%sE%s!@*%%\rZ%s%s|x\\y%sT%s' % (
+                esc, m9, i, v, i, esc, esc, esc, esc, 'EF'[level - 1], chr(65 + i), esc, esc)
             msg2 = msg2.replace('!@*%', ''.join(c for c in '!@*%$' if c != esc))
 
             def pe(msg2=msg2, level=level):
@@ -308,6 +310,73 @@ def run_baton(spec, rec):
     rec.sample({'kind': 'baton', 'pairs': spec['pairs'], 'distinct_traces': len(traces)})
 
 
+def run_byfunc(spec, rec):
+    """systematic part of the warm schedules: for every function that touches process-wide state (anchor function) two calls
+    of the corpus that both pass through it - preferably the same kind of call with another version / level, so that they
+    carry different keys through it - are interleaved with a hand-over at the first and at the last visit of each of its
+    lines, in both roles"""
+    rng = gen.rng_for(spec['seed'], 'c19-byfunc', spec['part'])
+    calls = corpus()
+    by = dict(calls)
+    ref = {lab: outcome(f) for lab, f in calls}
+    # footprint of every call: the anchor functions it visits (one monitored solo run each)
+    foot = {}
+    for lab, f in calls:
+        out, bt, hung = sched.run_pair(f, lambda: None, {})
+        foot[lab] = set((a, b) for a, b, _ in bt.aseq[0])
+    funcs = sorted(set(x for v in foot.values() for x in v))
+    rec.count('anchor_functions_found', len(funcs) if spec['part'] == 0 else 0)
+    mine = [f for i, f in enumerate(funcs) if i % spec['parts'] == spec['part']]
+    traces = set()
+    for F in mine:
+        cands = sorted(l for l in foot if F in foot[l])
+        if len(cands) < 2:
+            rec.count('anchor_functions_visited_by_one_call_only')
+            continue
+        pairs = []
+        # one pair per kind of call that visits the function (a parse and a build use what it returns differently), the
+        # second call being of the same kind with another version / level where there is one
+        kinds = sorted(set(l.split('/')[0] for l in cands))
+        rng.shuffle(kinds)
+        for kind in kinds[:spec['kinds_per_function']]:
+            of_kind = [l for l in cands if l.split('/')[0] == kind]
+            for _ in range(spec['pairs_per_function']):
+                a = of_kind[rng.randrange(len(of_kind))]
+                same_kind = [l for l in of_kind if l.split('/')[1:3] != a.split('/')[1:3]]
+                pool = same_kind or [l for l in cands if l != a]
+                pairs.append((a, pool[rng.randrange(len(pool))]))
+        for a, b in pairs:
+            for x, y in ((a, b), (b, a)):
+                out, bt, hung = sched.run_pair(by[x], by[y], {})
+                occ = collections.OrderedDict()
+                for k, loc in enumerate(bt.aseq[0], 1):
+                    if (loc[0], loc[1]) == F:
+                        occ.setdefault(loc[2], []).append(k)
+                ks = sorted(set(o[0] for o in occ.values()) | set(o[-1] for o in occ.values()))
+                for k in ks[:spec.get('max_plans', 24)]:
+                    pl = {0: {'anchor': {k}}}
+                    out, bt2, hung = sched.run_pair(by[x], by[y], pl)
+                    tr = tuple(bt2.trace)
+                    traces.add((x, y, tr))
+                    rec.evaluation(('byfunc', F, x, y, tr), nontrivial=len(tr) > 0)
+                    rec.count('function_targeted_schedules')
+                    if hung:
+                        rec.inconclusive_reason('function-targeted schedule hung for %s / %s' % (x, y))
+                        return
+                    for lab, o in ((x, out[0]), (y, out[1])):
+                        rec.count('calls_compared_baton')
+                        if o != ref[lab]:
+                            rec.violation('result-differs-under-threads:forced-switch', {'kind': 'baton', 'a': x, 'b': y,
+                                                                                         'plan': _plan_json(pl),
+                                                                                         'function': list(F)},
+                                          {'label': lab, 'sequential': str(ref[lab])[:200], 'concurrent': str(o)[:200],
+                                           'trace': [list(t) for t in tr][:4]})
+        rec.count('anchor_functions_targeted')
+        rec.seen('anchor_functions', '%s:%s' % F)
+    rec.count('interleavings_distinct', len(traces))
+    rec.sample({'kind': 'byfunc', 'functions': ['%s:%s' % f for f in mine[:6]]})
+
+
 def _plan_json(pl):
     return {str(k): {kk: sorted(vv) for kk, vv in v.items()} for k, v in pl.items()}
 
@@ -481,7 +550,8 @@ def run_cold(spec, rec):
 
 
 def run_shard(spec, rec):
-    {'stress': run_stress, 'inject': run_inject, 'baton': run_baton, 'cold': run_cold}[spec['kind']](spec, rec)
+    {'stress': run_stress, 'inject': run_inject, 'baton': run_baton, 'cold': run_cold,
+     'byfunc': run_byfunc}[spec['kind']](spec, rec)
 
 
 def replay(case, rec):
